@@ -34,12 +34,17 @@ def _owns_pid(op):
     return op.get("op") in ("store", "delete") and op.get("pid") is not None
 
 
-def acceptable(call, exp, calls):
+def acceptable(call, exp, calls, ignore_digests=False):
     """Outcome of one call against the model's expectation for its position in a candidate
     sequential order, plus the concurrency-only allowances the properties name."""
     out = call.out
     if exp.matches(out):
         return True
+    if ignore_digests and out[0] == "ok" and exp.has_ok and isinstance(out[1], dict) and isinstance(exp.ok, dict):
+        a = dict(out[1], digests=None)
+        b = dict(exp.ok, digests=None)
+        if a == b:
+            return True
     op = call.op
     if out[0] == "exc" and op["op"] == "rmeta" and out[1] == "FileNotFoundError" and "ValueError" in exp.excs:
         return True  # a racing reader's not-found error
@@ -70,7 +75,7 @@ def split_delete_all(calls, nformats):
     return out
 
 
-def linearize(model0, calls, final_alpha, allow_inprogress=True):
+def linearize(model0, calls, final_alpha, allow_inprogress=True, ignore_digests=False):
     """Search for a sequential order (respecting per-task order and real-time precedence) whose
     model execution yields every observed outcome and the observed final state.  Returns
     (order, None) or (None, reason)."""
@@ -122,7 +127,7 @@ def linearize(model0, calls, final_alpha, allow_inprogress=True):
                 okc = True
             else:
                 exp = m2.apply(c.op)
-                okc = acceptable(c, exp, calls)
+                okc = acceptable(c, exp, calls, ignore_digests)
                 if not okc and len(order) >= best["depth"]:
                     best["depth"] = len(order)
                     best["why"] = {"reason": "outcome impossible at this position",
@@ -291,7 +296,13 @@ class ConcEngine(object):
             order, why = linearize(mdl, calls, fin)
             if order is None:
                 tag = "nonlin"
-                if any(c.op["op"] in META_OPS for c in calls):
+                o3, _ = linearize(mdl, calls, fin, ignore_digests=True)
+                if o3 is not None:
+                    # everything but a reported digest map is explained by a sequential order
+                    tag = "nonlin-digests-only"
+                    if not mp:
+                        props = set(["C02"])
+                elif any(c.op["op"] in META_OPS for c in calls):
                     o2, _ = linearize(mdl, split_delete_all(calls, len(w.formats)), fin)
                     if o2 is not None:
                         # explained entirely by delete-all acting document by document
